@@ -391,6 +391,27 @@ def run(ctx):
         _dl9.read_reaches_hash(ck, prog, config, 'C09-h')
         from . import c19 as _c19
         _c19.shared_scratch(ck, prog, config, 'C09-i', tuple(VALIDATORS), 'validity scan')
+        # ---- j  overall success only when the whole-data checksum matched too: every positive exit of the scan lies on
+        #         the >= 1 edge of validate_file() (or returns its verdict), except for a detached header or an
+        #         uncompressed source, where the scan of the chunks is the whole verdict
+        from ..rules.common import GateRule as _GR
+        from ..flow import POSITIVE as _POSV
+
+        def _exc(rule, c2, node, label, refined, ts):
+            op, l, r = atom_cmp(node.e, label)
+            if last_field(l) in ('has_uncompressed_source', 'header_only') and op == '!=' and const_value(r) == 0:
+                ts = ts | frozenset(['gate:validate_file'])
+            return ts
+        vcs = prog.need_func('validate_checksums')
+        gr9 = _GR(prog, vcs, {'validate_file': _POSV}, P1 | POS, extra_edge=_exc)
+        run_rule(prog, vcs, gr9)
+        ck.require(gr9.success_exits >= 1, 'validate_checksums has no positive exit')
+        ck.ob('C09-j', 'R2.gate', vcs.name, 'validate_file', not gr9.violations,
+              'every positive exit of the scan (%d state(s)) lies on the >= 1 edge of validate_file(), returns its verdict, '
+              'or is the detached-header / uncompressed-source case' % gr9.success_exits if not gr9.violations else
+              gr9.violations[0].msg + ': the scan reports overall success although the whole-data checksum was not '
+              'found equal', vcs.file, gr9.violations[0].node.line if gr9.violations else vcs.line,
+              path=gr9.violations[0].path if gr9.violations else None, config=config)
         # ---- b, e
         for name in SCANS:
             fn = prog.need_func(name)
